@@ -1,13 +1,13 @@
 package checks
 
 import (
-	"strconv"
-	"sort"
 	"encoding/json"
 	"fmt"
 	"os"
 	"os/exec"
 	"path/filepath"
+	"sort"
+	"strconv"
 	"strings"
 	"sync"
 
